@@ -123,9 +123,11 @@ impl Runtime {
 
     pub fn push(&self, task: &Arc<Task>) {
         debug!("scheduler::push  task={:?}", task);
-        self.cache
-            .upsert(task)
-            .unwrap_or_else(|err| panic!("fail to upsert task({}): {}", task.id, err));
+        if let Err(err) = self.cache.upsert(task) {
+            // the process is already finished and removed, there is nothing left to schedule
+            error!("fail to upsert task({}): {}", task.id, err);
+            return;
+        }
         self.scher.push(task);
     }
 
